@@ -44,7 +44,9 @@ def run(ctx):
     ctx.floor("C07.calls-after-open-quote", n, 1)
     parsers.fallthrough_skips_member(ctx, s, parsers.FILTER_PARSER)
     parsers.skipper_first_set(ctx, s)
+    parsers.literal_skippers_advance(ctx, s)
     escaping.unescape_writes(ctx, s)
+    escaping.utf8_width_table(ctx, s)
     emission_order(ctx, s, fn)
     no_decision_on_earlier_members(ctx, s, fn)
     # writer
@@ -137,6 +139,7 @@ def tag_bitmap(ctx, s, fn):
                         continue
             return False
         return True
+    letter_bits_injective(ctx, s, fn)
     for b, i, v in ors:
         bit = v[3] if (v[2][0] == "phi" and v[2][2] == ("local", k)) or v[2] == ("local", k) else v[2]
         if contains_value(v[3], lambda y: y[0] == "phi" and y[2] == ("local", k)):
@@ -158,6 +161,44 @@ def tag_bitmap(ctx, s, fn):
               "the value OR-ed into (and tested against) found_tags is 1 << letter-index" if ok else
               "the tag-letter bitmap is updated with something that is not a one-bit mask (mask=%s, same value tested=%s): "
               "acceptance depends on which letters came earlier" % (mask_ok, tested), b)
+
+
+def letter_bits_injective(ctx, s, fn):
+    """the 52 tag letters get 52 different bits: the function (closure) that maps a letter to its mask is evaluated for every
+    letter - two letters sharing a bit make a filter naming both look like a duplicate"""
+    from ..srules import eval_fn_scalar
+    cands = [c for c in ctx.F.closures_of(fn.path) if c.argc == 2]
+    best = None
+    for cf in cands:
+        r = eval_fn_scalar(s, cf, lambda y: y == ("param", 2), ord("e"))
+        if isinstance(r, tuple) and r[0] == "Some":
+            best = cf
+    if best is None:
+        s.add("S-ONEHOT", fn, "letter-bits-distinct", "A-Za-z", fn.sp, UNDECIDED,
+              "no separate letter-to-mask function was found to evaluate (the mask is computed in place): not decided")
+        return
+    masks = {}
+    unknown = []
+    for c in list(range(65, 91)) + list(range(97, 123)):
+        r = eval_fn_scalar(s, best, lambda y: y == ("param", 2), c)
+        if isinstance(r, tuple) and r[0] == "Some" and isinstance(r[1], int):
+            masks[c] = r[1]
+        else:
+            unknown.append(c)
+    clash = {}
+    for c, m in masks.items():
+        clash.setdefault(m, []).append(chr(c))
+    dup = sorted(v for v in clash.values() if len(v) > 1)
+    bad = [chr(c) for c, m in masks.items() if m <= 0 or m & (m - 1) or m >= 1 << 64]
+    if unknown:
+        s.add("S-ONEHOT", best, "letter-bits-distinct", "A-Za-z", best.sp, UNDECIDED,
+              "the mask could not be evaluated for %s" % "".join(chr(c) for c in unknown[:8]))
+    else:
+        ok = not dup and not bad
+        s.add("S-ONEHOT", best, "letter-bits-distinct", "A-Za-z", best.sp, PROVED if ok else VIOLATION,
+              "the 52 tag letters map to 52 distinct one-bit masks below 2^64" if ok else
+              "tag letters share a bit or get a non-one-bit mask (%s): a filter naming both letters of a pair is rejected as a "
+              "duplicate" % (", ".join("/".join(v) for v in dup) or ",".join(bad)))
 
 
 def emission_order(ctx, s, fn):
